@@ -293,6 +293,13 @@ func freshVE(v ssa.Value, depth int) (*ssa.Alloc, *ssa.Call, bool) {
 		if g == nil || len(g.Blocks) == 0 || depth > 1 {
 			return nil, nil, false
 		}
+		// a finisher: a function every return of which hands back one of its own parameters (`return (&T{…}).done()`)
+		if i := returnsOwnParam(g); i >= 0 && i < len(x.Common().Args) {
+			if a, mk, ok := freshVE(x.Common().Args[i], depth+1); ok {
+				return a, mk, true
+			}
+			return nil, nil, false
+		}
 		var al *ssa.Alloc
 		n := 0
 		for _, b := range g.Blocks {
@@ -316,6 +323,35 @@ func freshVE(v ssa.Value, depth int) (*ssa.Alloc, *ssa.Call, bool) {
 		return al, x, true
 	}
 	return nil, nil, false
+}
+
+// returnsOwnParam: the index of the parameter that every return of g hands back unchanged, or -1.
+func returnsOwnParam(g *ssa.Function) int {
+	idx := -1
+	for _, b := range g.Blocks {
+		r, ok := b.Instrs[len(b.Instrs)-1].(*ssa.Return)
+		if !ok {
+			continue
+		}
+		if len(r.Results) != 1 {
+			return -1
+		}
+		p, ok := r.Results[0].(*ssa.Parameter)
+		if !ok {
+			return -1
+		}
+		i := -1
+		for k, q := range g.Params {
+			if q == p {
+				i = k
+			}
+		}
+		if i < 0 || (idx >= 0 && idx != i) {
+			return -1
+		}
+		idx = i
+	}
+	return idx
 }
 
 // ctorAlloc: every return of f is error(fresh *ValidationError); returns the allocation (and maker call) of one of them.
